@@ -29,6 +29,7 @@ class EngineProp(Prop):
     async def _scenario(self, loop, case):
         H = engine.EngineRun(loop, case['role'], lease_publisher=case.get('lease_publisher', False), fragment=case.get('fragment'))
         await H.start()
+        await self.prologue(loop, H, case)
         script = []
         if 'script' in case:
             await H.run_script(case['script'])
@@ -115,6 +116,9 @@ class EngineProp(Prop):
         return o['sid']
 
     async def epilogue(self, loop, H, case):
+        return None
+
+    async def prologue(self, loop, H, case):
         return None
 
     def model_lines(self, case, obs):
